@@ -322,7 +322,7 @@ func confineHandler(w *workerCtx, line []byte) (any, error) {
 			} else {
 				obs.Result = "ok"
 			}
-		case <-time.After(10 * time.Second):
+		case <-idleAfter(10 * time.Second):
 			obs.Result, obs.Err = "hung", fmt.Sprintf("receiver did not return (sender: %v)", serr)
 		}
 	}
